@@ -678,3 +678,143 @@ Proof.
     inversion Hwf; subst. inversion Hl; subst. rewrite wire_cons, opts_ok_item by assumption.
     apply IH; try assumption. cbn [length] in Hf. lia.
 Qed.
+
+(* ---------- reading a segment of the shape  20-byte header ++ options ++ payload ---------- *)
+Lemma b8_prefix P X i : (i < length P)%nat -> Rfc.b8 (P ++ X) i = nth i P 0.
+Proof. intros H. unfold Rfc.b8. apply app_nth1, H. Qed.
+
+Lemma tcp_seg_facts P opts payload k :
+  length P = 20%nat -> Z.of_nat (length opts) = 4 * k - 20 -> nth 12 P 0 / 16 = k ->
+  Rfc.tcp_doff (P ++ opts ++ payload) = k /\
+  Rfc.tcp_opts_of (P ++ opts ++ payload) = opts /\
+  Rfc.tcp_payload_of (P ++ opts ++ payload) = payload /\
+  Rfc.zlen (P ++ opts ++ payload) = 4 * k + Rfc.zlen payload.
+Proof.
+  intros LP Lo Hk.
+  assert (Hd : Rfc.tcp_doff (P ++ opts ++ payload) = k).
+  { unfold Rfc.tcp_doff. rewrite b8_prefix by lia. exact Hk. }
+  split; [exact Hd|]. split; [|split].
+  - unfold Rfc.tcp_opts_of, Rfc.sub. rewrite Hd.
+    replace (Z.to_nat (4 * k - 20)) with (length opts) by lia.
+    rewrite <- LP, skipn_app_exact, firstn_app_exact. reflexivity.
+  - unfold Rfc.tcp_payload_of. rewrite Hd.
+    replace (Z.to_nat (4 * k)) with (length (P ++ opts)) by (rewrite app_length; lia).
+    rewrite app_assoc, skipn_app_exact. reflexivity.
+  - unfold Rfc.zlen. rewrite !app_length. lia.
+Qed.
+
+Lemma doff_val n : 0 <= n <= 40 -> n mod 4 = 0 ->
+  let d := w8 (w8 (20 + n) / 4 * 2^4) in
+  d / 16 = (20 + n) / 4 /\ d mod 16 = 0 /\ 4 * ((20 + n) / 4) = 20 + n /\ 5 <= (20 + n) / 4.
+Proof. intros H1 H2 d. subst d. unfold w8. change (2^8) with 256. change (2^4) with 16. Z.div_mod_to_equations. lia. Qed.
+
+Lemma w8_id x : 0 <= x < 256 -> w8 x = x.
+Proof. intros H. unfold w8. change (2^8) with 256. apply Z.mod_small, H. Qed.
+
+Lemma be32_rt' v : 0 <= v < 4294967296 ->
+  (w8 (v / 2^24) * 256 + w8 (v / 2^16)) * 65536 + (w8 (v / 2^8) * 256 + w8 v) = v.
+Proof. intros H. pose proof (be32_rt v H). lia. Qed.
+
+(* the caller's obligation on the flag byte (the state machines of C01-C05 emit only such) *)
+Definition flag_sane (f : Z) : bool :=
+  (Rfc.has f Rfc.SYN || Rfc.has f Rfc.ACK || Rfc.has f Rfc.RST) &&
+  negb (Rfc.has f Rfc.SYN && Rfc.has f Rfc.FIN) && negb (Rfc.has f Rfc.SYN && Rfc.has f Rfc.RST).
+
+Lemma wf_tcp_hdr pseudo sp dp sq ak fl wn ck items payload :
+  let opts := wire items in
+  let n := Z.of_nat (length opts) in
+  0 <= sp < 65536 -> 0 <= dp < 65536 -> 0 <= sq < 4294967296 -> 0 <= ak < 4294967296 ->
+  0 <= fl < 256 -> flag_sane fl = true -> 0 <= wn < 65536 -> is_u16 ck ->
+  Forall wf_item items -> Forall (item_legal (Rfc.has fl Rfc.SYN)) items ->
+  n <= 40 -> n mod 4 = 0 ->
+  let seg := tcp_hdr sp dp sq ak n fl wn ck opts ++ payload in
+  Rfc.sums_to_ffff (pseudo (Rfc.zlen seg) ++ seg) = true ->
+  Rfc.wf_tcp false pseudo seg = true /\
+  Rfc.view_tcp seg = Rfc.mkTV sp dp sq ak fl wn 0 opts payload.
+Proof.
+  intros opts n Hsp Hdp Hsq Hak Hfl Hsane Hwn Hck Hwf Hleg Hn Hn4 seg Hsum.
+  destruct (doff_val n ltac:(subst n; lia) Hn4) as (D1 & D2 & D3 & D4).
+  set (P := [w8 (sp / 2^8); w8 sp; w8 (dp / 2^8); w8 dp] ++ be32 sq ++ be32 ak ++
+            [w8 (w8 (20 + n) / 4 * 2^4); w8 fl; w8 (wn / 2^8); w8 wn; ck / 256; ck mod 256; 0; 0]).
+  assert (Eseg : seg = P ++ opts ++ payload).
+  { subst seg P. unfold tcp_hdr. rewrite <- !app_assoc. reflexivity. }
+  assert (LP : length P = 20%nat) by reflexivity.
+  assert (E12 : nth 12 P 0 = w8 (w8 (20 + n) / 4 * 2^4)) by reflexivity.
+  destruct (tcp_seg_facts P opts payload ((20 + n) / 4) LP ltac:(subst n; lia) ltac:(rewrite E12; exact D1))
+    as (F1 & F2 & F3 & F4).
+  assert (B : forall i, (i < 20)%nat -> Rfc.b8 seg i = nth i P 0).
+  { intros i Hi. rewrite Eseg. apply b8_prefix. lia. }
+  assert (Efl : Rfc.tcp_flags_of seg = fl).
+  { unfold Rfc.tcp_flags_of. rewrite B by lia. change (nth 13 P 0) with (w8 fl). apply w8_id, Hfl. }
+  split.
+  - unfold Rfc.wf_tcp. rewrite Efl. rewrite Hsum. rewrite <- Eseg in F1, F2, F3, F4. rewrite F1, F2, F4.
+    rewrite (B 12%nat) by lia. rewrite E12, D2.
+    unfold flag_sane in Hsane. rewrite Hsane.
+    pose proof (zlen_nonneg payload).
+    change opts with (wire items).
+    rewrite opts_ok_wire; [|pose proof (wire_length_ge items Hwf); lia|exact Hwf|exact Hleg].
+    destruct (Z.leb_spec 20 (4 * ((20 + n) / 4) + Rfc.zlen payload)); [|lia].
+    destruct (Z.leb_spec 5 ((20 + n) / 4)); [|lia].
+    destruct (Z.leb_spec (4 * ((20 + n) / 4)) (4 * ((20 + n) / 4) + Rfc.zlen payload)); [|lia].
+    reflexivity.
+  - unfold Rfc.view_tcp. rewrite Efl. rewrite <- Eseg in F2, F3. rewrite F2, F3.
+    unfold Rfc.b32, Rfc.b16. rewrite !B by lia.
+    subst P. unfold be32. cbn [app nth].
+    rewrite (be32_rt' sq), (be32_rt' ak) by assumption.
+    rewrite (be16_rt sp), (be16_rt dp), (be16_rt wn) by assumption.
+    reflexivity.
+Qed.
+
+Lemma all_bytes_ok l : bytes_ok l -> Rfc.all_bytes l = true.
+Proof.
+  intros H. unfold Rfc.all_bytes. apply forallb_forall. intros x Hx.
+  unfold bytes_ok in H. rewrite Forall_forall in H. specialize (H x Hx). unfold is_byte in H. lia.
+Qed.
+
+(* what follows the network header, judged by the protocol number as Model/Rfc.v does *)
+Definition transport4_ok (off : bool) (src dst : list Z) (p : Z) (tp : list Z) : bool :=
+  let ps := Rfc.pseudo4 src dst p in
+  if p =? 6 then Rfc.wf_tcp off ps tp else if p =? 17 then Rfc.wf_udp off ps tp
+  else if p =? 1 then Rfc.wf_icmp4 tp else false.
+
+Lemma wf_ipv4_hdr off len id ttl proto ck src dst tp :
+  length src = 4%nat -> length dst = 4%nat ->
+  Rfc.src4_ok src = true ->
+  len = 20 + Rfc.zlen tp -> 0 <= len < 65536 -> 0 <= id < 65536 -> 1 <= ttl < 256 -> 0 <= proto < 256 ->
+  is_u16 ck ->
+  rfc1071_sum (ip4_hdr len id ttl proto ck src dst) 0 = 65535 ->
+  transport4_ok off src dst proto tp = true ->
+  let f := ip4_hdr len id ttl proto ck src dst ++ tp in
+  Rfc.wf_ipv4 off f = true /\ Rfc.view_ip4 f = Rfc.mkIV src dst proto ttl id tp.
+Proof.
+  intros Ls Ld Hsrc Hlen Hl Hid Httl Hp Hck Hsum Htp f.
+  destruct (len4 _ Ls) as (s0 & s1 & s2 & s3 & ->). destruct (len4 _ Ld) as (d0 & d1 & d2 & d3 & ->).
+  set (P := ip4_hdr len id ttl proto ck [s0; s1; s2; s3] [d0; d1; d2; d3]) in *.
+  assert (LP : length P = 20%nat) by reflexivity.
+  assert (B : forall i, (i < 20)%nat -> Rfc.b8 f i = nth i P 0) by (intros i Hi; apply b8_prefix; lia).
+  assert (Eihl : Rfc.ip4_ihl f = 5) by (unfold Rfc.ip4_ihl; rewrite B by lia; reflexivity).
+  assert (Etot : Rfc.ip4_total f = len).
+  { unfold Rfc.ip4_total, Rfc.b16. rewrite !B by lia. subst P. cbn [ip4_hdr app nth]. apply be16_rt, Hl. }
+  assert (Ezl : Rfc.zlen f = len) by (subst f; unfold Rfc.zlen in *; rewrite app_length, LP; lia).
+  assert (Esrc : Rfc.ip4_src f = [s0; s1; s2; s3]) by reflexivity.
+  assert (Edst : Rfc.ip4_dst f = [d0; d1; d2; d3]) by reflexivity.
+  assert (Epl : Rfc.ip4_payload f = tp).
+  { unfold Rfc.ip4_payload. rewrite Eihl. change (Z.to_nat (4 * 5)) with (length P). apply skipn_app_exact. }
+  assert (Ettl : Rfc.ip4_ttl f = ttl) by (unfold Rfc.ip4_ttl; rewrite B by lia; subst P; cbn [ip4_hdr app nth]; apply w8_id; lia).
+  assert (Epr : Rfc.ip4_proto f = proto) by (unfold Rfc.ip4_proto; rewrite B by lia; subst P; cbn [ip4_hdr app nth]; apply w8_id; lia).
+  assert (Eid : Rfc.ip4_id f = id).
+  { unfold Rfc.ip4_id, Rfc.b16. rewrite !B by lia. subst P. cbn [ip4_hdr app nth]. apply be16_rt, Hid. }
+  split.
+  - unfold Rfc.wf_ipv4. rewrite Ezl, Eihl, Etot, Esrc, Edst, Epl, Ettl, Epr, Hsrc.
+    change (Z.to_nat (4 * 5)) with (length P). unfold f at 2. rewrite firstn_app_exact.
+    unfold Rfc.sums_to_ffff. rewrite Hsum.
+    rewrite (B 0%nat), (B 6%nat) by lia. unfold Rfc.b16. rewrite (B 6%nat), (B 7%nat) by lia.
+    change (nth 0 P 0) with 69. change (nth 6 P 0) with 0. change (nth 7 P 0) with 0.
+    unfold transport4_ok in Htp. cbv zeta in Htp.
+    change (69 / 16 =? 4) with true. change (0 / 128 =? 0) with true. change ((0 * 256 + 0) mod 16384 =? 0) with true.
+    change (65535 =? 65535) with true. cbn [negb andb]. cbv zeta. rewrite Htp.
+    destruct (Z.leb_spec 20 len); [|unfold Rfc.zlen in *; lia]. rewrite Z.eqb_refl.
+    destruct (Z.leb_spec 5 5); [|lia]. destruct (Z.leb_spec (4 * 5) len); [|unfold Rfc.zlen in *; lia].
+    destruct (Z.leb_spec 1 ttl); [|lia]. reflexivity.
+  - unfold Rfc.view_ip4. rewrite Esrc, Edst, Epl, Ettl, Epr, Eid. reflexivity.
+Qed.
